@@ -342,6 +342,37 @@ pub fn finalize(ctx: &Ctx, spec: Spec, mut st: Stats) -> i32 {
             }
         }
     }
+    // ---- Miri pass (run by the check script before this process on a small single-threaded workload)
+    let mut miri_summary: Option<J> = None;
+    if let Ok(path) = std::env::var("VERIF_MIRI_SUMMARY") {
+        if let Ok(t) = std::fs::read_to_string(&path) {
+            miri_summary = json::parse(&t).ok();
+        }
+    }
+    if let Ok(path) = std::env::var("VERIF_MIRI_REPORT") {
+        if let Ok(text) = std::fs::read_to_string(&path) {
+            let src = env!("FLOUNDER_SRC_USED");
+            let kind = text.lines().find_map(|l| l.split("error: ").nth(1)).map(|r| r.chars().take(120).collect::<String>()).unwrap_or_else(|| "report".into());
+            let wrong_answers = text.lines().any(|l| l.starts_with("MIRI ") && l.contains("mismatches=") && !l.contains("mismatches=0"));
+            let frame = text.lines().find(|l| l.contains(src)).map(|l| l.trim().to_string());
+            let excerpt: Vec<String> = text.lines().filter(|l| !l.trim().is_empty()).take(30).map(|l| l.to_string()).collect();
+            if wrong_answers {
+                st.violation(
+                    format!("{}:miri:wrong-answers", ctx.id),
+                    format!("the {} workload run under Miri got answers that differ from its reference model: {}", ctx.id, text.lines().find(|l| l.starts_with("MIRI ")).unwrap_or("")),
+                    J::obj(vec![("kind", J::s("miri")), ("tool", J::s("Miri")), ("seed", J::i(ctx.seed as i64)), ("tier", J::s(ctx.tier_name())), ("report", J::arr_s(excerpt))]),
+                );
+            } else if let Some(fr) = frame {
+                st.violation(
+                    format!("{}:miri:{}", ctx.id, kind.split(':').next().unwrap_or("ub")),
+                    format!("Miri reports '{}' with engine code on the stack ({}) while the {} workload ran in the interpreter", kind, fr, ctx.id),
+                    J::obj(vec![("kind", J::s("miri")), ("tool", J::s("Miri")), ("seed", J::i(ctx.seed as i64)), ("tier", J::s(ctx.tier_name())), ("report", J::arr_s(excerpt))]),
+                );
+            } else {
+                st.inconclusive.push(format!("Miri stopped with '{}' but no frame of the report lies in the engine sources ({}): harness or interpreter limitation, see target/miri-out/{}/stderr.txt", kind, src, ctx.id));
+            }
+        }
+    }
     let mut fresh: Vec<Violation> = vec![];
     let mut known_hit: BTreeMap<String, (String, u64)> = BTreeMap::new();
     for v in st.violations.iter() {
@@ -409,6 +440,9 @@ pub fn finalize(ctx: &Ctx, spec: Spec, mut st: Stats) -> i32 {
     cov.extend(spec.extra.clone());
     if let Some(j) = san_summary {
         cov.push(("sanitizer_pass".into(), j));
+    }
+    if let Some(j) = miri_summary {
+        cov.push(("miri_pass".into(), j));
     }
     if !st.inconclusive.is_empty() {
         cov.push(("inconclusive".into(), J::arr_s(st.inconclusive.clone())));
